@@ -22,6 +22,7 @@ type recoverCase struct {
 	Ops     []CoreOp  `json:"ops"`     // the history of core A up to the crash
 	Shuffle uint64    `json:"shuffle"` // seed of the replay order
 	Cont    int       `json:"cont"`    // scheduling cycles on B after the replay
+	TightB  bool      `json:"tightb"`  // core B starts with every queue maximum, user limit and max-applications shrunk (quotas far below what is replayed)
 	// filled by the run
 	a      *CoreObs
 	replay CoreCase
@@ -99,6 +100,34 @@ func recoverReplayOps(a *CoreObs, ops []CoreOp, accepted map[string]int) (out []
 	return out, deps
 }
 
+// recoverTighten rewrites a generated configuration document: every max resource value becomes 2, every guaranteed
+// value and user limit value 1, every max-applications 1 (the tree shape, names and rules stay). The result still
+// satisfies the validation rules for the trees genTree builds (at most two children below a parent).
+func recoverTighten(doc string) string {
+	lines := strings.Split(doc, "\n")
+	block := ""
+	for i, l := range lines {
+		t := strings.TrimSpace(l)
+		switch {
+		case t == "guaranteed:" || t == "max:" || t == "maxresources:":
+			block = t
+		case strings.HasPrefix(t, "memory:") || strings.HasPrefix(t, "vcore:") || strings.HasPrefix(t, "gpu:"):
+			v := "1"
+			if block == "max:" {
+				v = "2"
+			}
+			lines[i] = l[:strings.Index(l, ":")+1] + " " + v
+		case strings.HasPrefix(t, "maxapplications:"):
+			lines[i] = l[:strings.Index(l, ":")+1] + " 1"
+		default:
+			if !strings.HasPrefix(t, "memory") {
+				block = ""
+			}
+		}
+	}
+	return strings.Join(lines, "\n")
+}
+
 // recoverOrder picks a random linear extension of the precedence relation.
 func recoverOrder(r *Rng, n int, deps [][]int) []int {
 	done := make([]bool, n)
@@ -147,17 +176,26 @@ func recoverRun(c *recoverCase) error {
 	rops, deps := recoverReplayOps(c.a, c.Ops, accepted)
 	order := recoverOrder(NewRng(c.Shuffle), len(rops), deps)
 	// core B (fresh: newCoreDriver clears the user/group manager and creates a new cluster context)
-	db, err := newCoreDriver(&c.World)
-	if err != nil {
-		return err
+	wb := c.World
+	if c.TightB {
+		wb.Configs = append([]string{recoverTighten(c.World.Configs[0])}, c.World.Configs[1:]...)
 	}
-	c.replay = CoreCase{World: c.World, Init: db.observe()}
+	db, err := newCoreDriver(&wb)
+	if err != nil {
+		// the shrunk document does not load: restart with the unchanged configuration
+		c.TightB = false
+		wb = c.World
+		if db, err = newCoreDriver(&wb); err != nil {
+			return err
+		}
+	}
+	c.replay = CoreCase{World: wb, Init: db.observe()}
 	for _, i := range order {
 		c.replay.Ops = append(c.replay.Ops, rops[i])
 		c.replay.Steps = append(c.replay.Steps, db.step(&c.replay.Ops[len(c.replay.Ops)-1]))
 	}
 	c.nrep = len(order)
-	c.cont = CoreCase{World: c.World, Init: db.observe()}
+	c.cont = CoreCase{World: wb, Init: db.observe()}
 	for i := 0; i < c.Cont; i++ {
 		c.cont.Ops = append(c.cont.Ops, CoreOp{Kind: "sched"})
 		c.cont.Steps = append(c.cont.Steps, db.step(&c.cont.Ops[len(c.cont.Ops)-1]))
@@ -178,7 +216,7 @@ func recoverGenCase(rng *Rng, maxOps int) (*recoverCase, error) {
 	if k > len(c.Ops) {
 		k = len(c.Ops)
 	}
-	rc := &recoverCase{World: c.World, Ops: append([]CoreOp{}, c.Ops[:k]...), Shuffle: rng.Next(), Cont: 4 + rng.Intn(4)}
+	rc := &recoverCase{World: c.World, Ops: append([]CoreOp{}, c.Ops[:k]...), Shuffle: rng.Next(), Cont: 4 + rng.Intn(4), TightB: rng.Chance(50)}
 	if err := recoverRun(rc); err != nil {
 		return nil, err
 	}
@@ -264,6 +302,9 @@ func recoverEngine(o *Opts) {
 			}
 		}
 		st.Distribution["replay.apps"] += len(c.a.Apps)
+		if c.TightB {
+			st.Count("restart.with-shrunk-quotas")
+		}
 		if inflight {
 			st.Count("crash.inflight-swap")
 		}
